@@ -16,13 +16,19 @@ Inductive dkind :=
   | KDir              (* an existing directory *)
   | KParentMissing    (* the destination's directory does not exist *)
   | KParentFile       (* the destination's "directory" is a regular file *)
-  | KSymlinkToOther.  (* a symbolic link to a different regular file *)
+  | KSymlinkToOther   (* a symbolic link to a different regular file *)
+  (* fault scenarios: a real failure of one system call, without hooks *)
+  | KDevFull          (* /dev/full: a device on a third file system; create succeeds, every write fails with ENOSPC *)
+  | KSymlinkDevFull   (* a symbolic link to /dev/full *)
+  | KNoWriteDir       (* missing destination in a directory without write permission: rename and create fail *)
+  | KSrcUnreadable.   (* missing destination, source without read permission: open fails *)
 
 Definition kind_of_N (k : N) : dkind :=
   if k =? 0 then KMissing else if k =? 1 then KOther else if k =? 2 then KSamePath
   else if k =? 3 then KDotSpelling else if k =? 4 then KSymlinkToSrc else if k =? 5 then KHardlink
   else if k =? 6 then KDir else if k =? 7 then KParentMissing else if k =? 8 then KParentFile
-  else KSymlinkToOther.
+  else if k =? 9 then KSymlinkToOther else if k =? 10 then KDevFull else if k =? 11 then KSymlinkDevFull
+  else if k =? 12 then KNoWriteDir else KSrcUnreadable.
 
 Definition src_path : N := 0.
 Definition third_path : N := 3.
@@ -31,7 +37,8 @@ Definition dst_path (k : dkind) : N := match k with KSamePath | KDotSpelling => 
 Definition other_content : list N := [2; 2].
 Definition third_content : list N := [3; 3; 3].
 
-(** slots: 0 source, 1 destination, 2 the file a KSymlinkToOther destination points to, 3 third party;
+(** slots: 0 source, 1 destination, 2 the file a symlink destination points to, 3 third party;
+    devices: 0 the source's, 1 the other one, 2 the one /dev/full lives on;
     inodes: 0 source, 1 the other file or directory, 2 third party *)
 Definition scenario (k : dkind) (otherdev srcmissing : bool) (c : list N) : fs :=
   let d := if otherdev then 1 else 0 in
@@ -40,13 +47,13 @@ Definition scenario (k : dkind) (otherdev srcmissing : bool) (c : list N) : fs :
        if e =? 0 then (if srcmissing then Empty else Link 0)
        else if e =? 1 then
          match k with
-         | KOther | KDir => Link 1
+         | KOther | KDir | KDevFull => Link 1
          | KSymlinkToSrc => Sym 0
          | KHardlink => Link 0
-         | KSymlinkToOther => Sym 2
+         | KSymlinkToOther | KSymlinkDevFull => Sym 2
          | _ => Empty
          end
-       else if e =? 2 then match k with KSymlinkToOther => Link 1 | _ => Empty end
+       else if e =? 2 then match k with KSymlinkToOther | KSymlinkDevFull => Link 1 | _ => Empty end
        else if e =? 3 then Link 2
        else Empty)
     (fun i =>
@@ -56,9 +63,19 @@ Definition scenario (k : dkind) (otherdev srcmissing : bool) (c : list N) : fs :
        else None)
     3
     (fun e =>
-       if e =? 1 then match k with KParentMissing => PMissing | KParentFile => PNotDir | _ => POk d end
-       else if e =? 2 then POk d
+       if e =? 1 then match k with KParentMissing => PMissing | KParentFile => PNotDir | KDevFull => POk 2 | _ => POk d end
+       else if e =? 2 then match k with KSymlinkDevFull => POk 2 | _ => POk d end
        else POk 0).
+
+(** the fault a scenario provokes: which call fails, and how *)
+Definition scenario_faults (k : dkind) : faults :=
+  fun st =>
+    match k, st with
+    | KDevFull, SCopy | KSymlinkDevFull, SCopy => Short 0 ENOSPC
+    | KNoWriteDir, SRename | KNoWriteDir, SCreate => Fail EACCES
+    | KSrcUnreadable, SOpen => Fail EACCES
+    | _, _ => Pass
+    end.
 
 (** are the two paths names of one file (no copy can be made, a move has nothing to do)? *)
 Definition is_alias (k : dkind) : bool :=
